@@ -60,6 +60,7 @@ func (c *genCfg) inputs(emit func(string)) {
 		}
 		truncations(sqlTemplates, sqlDecoys, emit)
 		byteSweep(sqlSweepSeeds, emit)
+		longPadded(emit)
 		twinSweep(sqlSweepSeeds, "'\"`-/#*;=()., ", emit)
 		sqlLengthBoundaries(emit)
 		tableDrivenSQL(emit)
